@@ -38,7 +38,7 @@ import cfggen
 import flow
 import mockca
 import vlib
-from ext import c06nb, c06place
+from ext import c06link, c06nb, c06place
 
 NS = 10 ** 9
 DAY = 86400
@@ -155,7 +155,9 @@ def gen_triple(rng, idx, root):
         c["nb"] = c06nb.pick(rng, 0.6)[1]
     return {"dir": d, "ids": ids, "delay_s": delay, "rer_s": rer, "cert_dns": cert_dns, "cert_ips": cert_ips,
             "not_after_offset": na, "present": present, "shape": shape, "chain": chain,
-            "lead_text": lead_text, "naming": naming, "decoy": decoy, "not_before_offset": nb, "nb_class": nb_class}
+            "lead_text": lead_text, "naming": naming, "decoy": decoy, "not_before_offset": nb, "nb_class": nb_class,
+            # the kind of directory entry at the two configured paths (py/ext/c06link.py)
+            "entry": c06link.pick(idx + 2)}
 
 
 def decoy_naming(t):
@@ -211,6 +213,7 @@ def prepare(helper, t):
                     f.write(text)
         else:
             t["decoy"] = None
+    c06link.apply(t, crt, key)
     t["made_at"] = r["now_unix"]
     return r
 
@@ -244,6 +247,7 @@ def check_triples(ctx, triples, tag="x:"):
             cert = {"sans": list(t["cert_dns"]) + list(t["cert_ips"]),
                     "not_after_in": t["not_after_offset"] - (now - t["made_at"])}
         obs = i.get("ok_ns") if ok and "ok_ns" in i else None
+        key_file, cert_file, cert = c06link.disk(t, key_file, cert_file, cert)
         jin.append({"op": "c06", "disk": {"key_file": key_file, "cert_file": cert_file, "cert": cert},
                     "ids": [x["norm"] for x in t["ids"]], "delay_ns": str(t["delay_s"] * NS),
                     "rer_ns": str(t["rer_s"] * NS), "slack_ns": str(2 * NS), "observed_ns": obs})
@@ -251,8 +255,11 @@ def check_triples(ctx, triples, tag="x:"):
     for t, i, j, v in zip(triples, impl, jin, verdicts):
         canon = {k: t[k] for k in ("ids", "delay_s", "rer_s", "cert_dns", "cert_ips", "not_after_offset", "present",
                                    "chain", "naming", "decoy", "lead_text")}
+        if t.get("entry"):
+            canon["entry"] = t["entry"]
         ctx.case(canon, nontrivial=t["present"] == "both")
         ctx.count(tag + "files:" + t["present"])
+        c06link.count(ctx, tag, t, j["disk"]["key_file"], j["disk"]["cert_file"])
         ctx.count(tag + "sans:" + t["shape"])
         ctx.count(tag + "chain:%d" % (1 + len(t["chain"])))
         c06nb.count(ctx, tag, t, ":files=%s:sans=%s:chain=%d" % (t["present"], t["shape"], 1 + len(t["chain"])))
@@ -273,7 +280,7 @@ def check_triples(ctx, triples, tag="x:"):
         if not v.get("holds"):
             ctx.violation("schedule_renewal returned %s; the property allows [%s, %s] (files %s%s, names %s, chain of %d, "
                           "naming %s, notAfter in %d s, delay %d s, jitter %d s)" % (
-                              i.get("ok_ns", i.get("err")), v.get("model_lo"), v.get("model_hi"), t["present"],
+                              i.get("ok_ns", i.get("err")), v.get("model_lo"), v.get("model_hi"), t["present"] + c06link.describe(t),
                               (" + decoy " + t["decoy"]) if t["decoy"] else "", t["shape"], 1 + len(t["chain"]),
                               t["naming"], t["not_after_offset"], t["delay_s"], t["rer_s"]), robj)
         elif not v.get("fresh_ok", True):
@@ -333,6 +340,13 @@ def loop_scenarios(ctx):
         {"kind": "short", "valid_secs": 13, "delay_s": 5, "rer_s": 0, "watch_s": 14, "valid_from_offset": 600},
         # installed before the start, valid from the day after tomorrow on
         {"kind": "installed-fresh", "watch_s": 6, "pair_secs": 90 * DAY, "valid_secs": 90 * DAY, "pair_nb_offset": 2 * DAY},
+        # the two paths are SYMBOLIC LINKS (py/ext/c06link.py): to the files of a fresh pair installed before the start
+        # (no request at all); dangling at the start (= no file: requested at once, the issuance writes through the links,
+        # what was issued is fresh: no second request while watched); to the files of a pair due in W seconds
+        {"kind": "installed-fresh", "watch_s": 6, "pair_secs": 90 * DAY, "valid_secs": 90 * DAY, "entry": {"cert": "link-rel", "key": "link-abs"}},
+        {"kind": "issued-fresh", "watch_s": 6, "valid_secs": 90 * DAY, "entry": {"cert": "dangling", "key": "dangling"}},
+        {"kind": "installed-short", "pair_secs": 11, "delay_s": 4, "rer_s": 0, "watch_s": 13, "valid_secs": 90 * DAY,
+         "entry": {"cert": "link-abs", "key": "link-rel"}},
     ]
     if not ctx.quick():
         scs += [{"kind": "short", "valid_secs": ctx.rng.randint(10, 30), "delay_s": ctx.rng.randint(1, 6),
@@ -392,6 +406,10 @@ def run_loop(sc, root, helper):
             f.write(r["key_pem"])
         certs.append({"name": "healthy", "identifiers": [{"dns": "healthy.example.org", "challenge": "http-01"}],
                       "key_type": "ecdsa_p256"})
+    if sc.get("entry"):
+        c06link.apply(sc, crt, key)
+        if "pair_secs" in sc:
+            t_install = time.monotonic_ns()
     accounts = None
     if sc.get("neighbour"):
         # a second certificate of the SAME endpoint, installed with 90 days of life (default renew_delay: its own
@@ -482,6 +500,8 @@ def run_loop(sc, root, helper):
         obs["rc"] = dmn.stop()
         ca.stop()
         obs["stderr"] = dmn.stderr()[-600:]
+    if sc.get("entry"):
+        obs["entries_after"] = {"cert": c06link.state(crt), "key": c06link.state(key)}
     return obs
 
 
@@ -491,6 +511,9 @@ def judge_loop(ctx, obs):
     ctx.count("x:loop:" + sc["kind"])
     if sc.get("valid_from_offset") or sc.get("pair_nb_offset"):
         ctx.count("x:loop:notBefore-in-the-future:" + sc["kind"])
+    if sc.get("entry"):
+        ctx.count("x:loop:entry:%s:cert=%s,key=%s:afterwards:cert=%s,key=%s" % (
+            sc["kind"], sc["entry"]["cert"], sc["entry"]["key"], obs.get("entries_after", {}).get("cert"), obs.get("entries_after", {}).get("key")))
     robj = {"part": "x:loop", "sc": sc, "obs": {k: v for k, v in obs.items() if k != "sc"}}
     if obs["rc"] is not None:
         ctx.violation("loop scenario %s: the daemon process ended (status %s): %s" % (sc["kind"], obs["rc"], obs["stderr"][-300:]), robj)
